@@ -2,6 +2,7 @@
 From Coq Require Import Lia.
 From Zeno Require Import Base Alias AliasP.
 From Zeno Require Pin PinP PinSrc Facts TiePin.
+From Zeno Require Tree TreeP.
 
 (* whatever the live store does after a scan took its (deep-copied) memstore snapshot — inserts into
    existing periods (in-place writes), into new keys, flushes — every buffer the snapshot points to
@@ -41,6 +42,19 @@ Example C18_nonvacuous :
   map (aread Z Z.eqb Z 0 t (snd later)) [1; 2] = [Some 15; Some 20].
 Proof. split; [intros k i [H|[H|[]]]; inversion H; cbn; lia|]. vm_compute. auto. Qed.
 
+(* the snapshot a scan takes of the memstore (Tree.Copy) holds exactly the keys and data the tree held at that
+   moment, without removal marks, and a Walk of it reports each of them *)
+Theorem C18_tree_copy : forall (D:Type) (t:Tree.tree D), TreeP.wf_tree t ->
+  TreeP.wf_tree (Tree.tcopy t) /\ TreeP.content (Tree.tcopy t) = TreeP.content t
+  /\ (forall key, Tree.tfind key (Tree.tcopy t) = Tree.tfind key t)
+  /\ (forall ctx, TreeP.unmarked ctx (Tree.tcopy t)).
+Proof. exact TreeP.tcopy_spec. Qed.
+Theorem C18_tree_copy_walk : forall (D:Type) ctx keep (t:Tree.tree D), TreeP.wf_tree t ->
+  forall k d, In (k, d) (snd (Tree.twalk ctx (fun _ _ => (true, keep)) (Tree.tcopy t))) <-> Tree.tfind k t = Some d.
+Proof. exact TreeP.copy_walk. Qed.
+
 Print Assumptions C18_snapshot_stable.
 Print Assumptions C18_scan_reflects_the_prefix_at_its_start.
 Print Assumptions C18_memstore_copied_with_file_store.
+Print Assumptions C18_tree_copy.
+Print Assumptions C18_tree_copy_walk.
